@@ -168,7 +168,7 @@ func checkResume(ctx *pbt.Ctx, c ResumeCase) error {
 	}
 	flags := interp.Flags(c.Flags)
 	model := c.Ctx.Model(c.Unlock, c.Lock)
-	r := interp.VerifyScript(c.Unlock, c.Lock, flags, interp.TxChecker{Tx: model, Idx: 0, Amount: c.Ctx.Amount}, true, lim)
+	r := interp.VerifyScript(c.Unlock, c.Lock, flags, interp.TxChecker{Tx: model, Idx: c.Ctx.Index(), Amount: c.Ctx.Amount}, true, lim)
 	if r.BudgetHit {
 		ctx.Discard("over_budget")
 		return nil
